@@ -1100,7 +1100,34 @@ func runC04(c *mon.Ctx) {
 		c04check(k, glyphs, infos, true, "wide-widths:")
 	})
 
-	req := []string{"stack-depth-48", "width:explicit", "width:omitted", "width:fractional-default", "width:fractional-nominal",
+	// fonts of a thousand and more glyphs (the sizes of real text fonts; the
+	// main strata stay small so that they can be many): every glyph, also the
+	// first and the last, must be compiled
+	c.Stratum("many-glyphs", c.N(12, 400), func(k *mon.Case) {
+		r := k.Rng
+		n := []int{1023, 1024, 1025, 1500, 2047, 2048, 4097}[k.Index%7]
+		if k.Index >= 7 {
+			n = 1000 + r.IntN(3200)
+		}
+		glyphs := make([]*cff.Glyph, n)
+		infos := make([]c04info, n)
+		ws := c04widths(r, n, k)
+		for i := range glyphs {
+			name := fmt.Sprintf("g%d", i)
+			if i == 0 {
+				name = ".notdef"
+			}
+			glyphs[i], infos[i] = c04glyph(r, name, []string{"random", "mixline", "hvline", "empty"}[r.IntN(4)], 0, r.IntN(2), r.IntN(8) == 0)
+			glyphs[i].Width = ws[i]
+		}
+		c04check(k, glyphs, infos, true, "many-glyphs:")
+		k.Class("many-glyphs")
+		if n >= 1024 {
+			k.Class("many-glyphs:1024-and-more")
+		}
+	})
+
+	req := []string{"many-glyphs:1024-and-more", "stack-depth-48", "width:explicit", "width:omitted", "width:fractional-default", "width:fractional-nominal",
 		"num:int1", "num:int2", "num:int3", "num:fixed16.16", "stems:1-24", "stems:25-48", "stems:49-95", "stems:96", "glyph:with-masks",
 		"stems:multi-operator", "stems:single-operator", "ximage-agrees", "enum:hv-runs-1..60x2", "enum:hv-chains-1..13x2x2",
 		"widths:all-equal", "widths:dominant", "widths:distinct", "widths:narrow-cluster", "widths:single-outlier", "widths:fractional-cluster", "widths:large", "widths:above-32767", "widths:skewed", "wide-widths:negative", "wide-widths:mean-near-one-end",
